@@ -365,6 +365,7 @@ def validate_traces(module, cfg, scenarios, workdir, shards=16, timeout=3600, ta
                     "line": v[2],
                     "why": sorted(v[3]["$set"]) if isinstance(v[3], dict) else v[3],
                     "dev": sorted(v[4]["$set"]) if len(v) > 4 and isinstance(v[4], dict) else [],
+                    "first": sorted(v[5]["$set"]) if len(v) > 5 and isinstance(v[5], dict) else [],
                 }
                 old = verdicts[g]
                 # a nondeterministic specification may give several verdicts: ACCEPT (with the fewest deviations)
